@@ -150,23 +150,23 @@ theorem fib2_ui_spec_pred (n : ℕ) (hn : 1 ≤ n) :
   exact Prod.ext h.1 (h.pred hn)
 example : mpz_fib2_ui 0 = (0, 1) ∧ mpz_fib2_ui 94 = (Nat.fib 94, Nat.fib 93) := by decide +kernel
 
-/- FULL STATEMENT (not proved): `∀ n < 2^64, mpz_fib_ui n = Nat.fib n`.
-   Proved below except for one number-theoretic fact that the C relies on without proof
-   (mpz/fib_ui.c:36-43 "No proof for this claim"): for n ≡ 1 (mod 4) the `+2` is added to the low limb
-   only, which is right iff F(n) mod 2^64 ∉ {0, 1}.  `≠ 0` is proved here (F(n) is not divisible by 4
-   for odd n); `≠ 1` is the hypothesis `hclaim` (true for every n < 2^64 if, as the comment says, the
-   first such n > 1 is 3·2^63 + 1 — the period of F mod 2^64 is 3·2^63).  For n even or n ≡ 3 (mod 4)
-   the theorem is unconditional (`fib_ui_spec_of_ne_one_mod_four`). -/
-/-- mpz_fib_ui = F(n), given the unproved low-limb claim of fib_ui.c for n ≡ 1 (mod 4) -/
-theorem fib_ui_spec_partial (n : ℕ)
-    (hclaim : n % 4 = 1 → FIB_TABLE_LIMIT < n → Nat.fib n % B ≠ 1) : mpz_fib_ui n = Nat.fib n :=
-  mpz_fib_ui_eq n hclaim
-example : mpz_fib_ui 1001 = Nat.fib 1001 := fib_ui_spec_partial 1001 (by intro _ _; decide +kernel)
+/-- The claim mpz/fib_ui.c:36-43 relies on with the words "No proof for this claim": for n ≡ 1 (mod 4),
+    1 < n < 2^64, the low limb of F(n) is not 1 (and it is not 0: F(n) is not divisible by 4 for odd n),
+    so adding 2 to the low limb of F(n) - 2 never carries.  Proof: F(4j+1) - 1 = F(2j)·L(2j+1),
+    F(m) even ⇔ 3 ∣ m ⇔ L(m) even, 8 ∤ L(m), 4 ∤ L(2w), hence v₂(F(2^k u)) ≤ k + 2; so 2^64 ∣ F(n) - 1
+    forces 3·2^61 ∣ j, i.e. n ≥ 3·2^63 + 1 > 2^64.  (The comment's "F[3*2^b+1]" should read 3·2^(b-1)+1.) -/
+theorem fib_low_limb_claim (n : ℕ) (hn : n < B) (h4 : n % 4 = 1) (h1 : 1 < n) :
+    Nat.fib n % B ≠ 1 ∧ Nat.fib n % B ≠ 0 := by
+  refine ⟨fib_low_limb_ne_one n hn h4 h1, fun h0 => ?_⟩
+  have := fib_odd_mod4 n (by omega)
+  rw [B_eq] at h0; omega
+example : Nat.fib 97 % B = 9834167195010216513 ∧ 97 % 4 = 1 := by decide +kernel
 
-/-- unconditional part: every n that is not ≡ 1 (mod 4) (table, F[2k] formula, F[2k+1] with the `-2`) -/
-theorem fib_ui_spec_of_ne_one_mod_four (n : ℕ) (h : n % 4 ≠ 1) : mpz_fib_ui n = Nat.fib n :=
-  mpz_fib_ui_eq n (fun h1 => absurd h1 h)
-example : mpz_fib_ui 999 = Nat.fib 999 := fib_ui_spec_of_ne_one_mod_four 999 (by decide)
+/-- mpz_fib_ui (model of mpz/fib_ui.c: table, F[2k] = F[k](F[k]+2F[k-1]), F[2k+1] = (2F[k]+F[k-1])(2F[k]-F[k-1]) ± 2
+    with the ±2 applied to the LOW LIMB ONLY) returns F(n) for EVERY n < 2^64. -/
+theorem fib_ui_spec (n : ℕ) (hn : n < B) : mpz_fib_ui n = Nat.fib n :=
+  mpz_fib_ui_eq n (fun h4 hbig => fib_low_limb_ne_one n hn h4 (by have := FIB_TABLE_LIMIT_ge; omega))
+example : mpz_fib_ui 1001 = Nat.fib 1001 ∧ mpz_fib_ui 94 = 19740274219868223167 := by decide +kernel
 
 /-- mpz_lucnum_ui (model of mpz/lucnum_ui.c: table, trailing-zero stripping, L[2k+1] formula with the
     low-limb `+4`, squaring steps with the low-limb `+2`): for EVERY n the result is the Lucas number,
